@@ -747,19 +747,19 @@ Proof.
     destruct f; simpl; [apply Hreg; left; reflexivity|exact Hfail|apply Hreg; right; reflexivity].
   - (* PSwap *)
     destruct Hok as [rowsT [Hct Hcov]].
-    assert (Hret : inv R0 (set_proc s c (early_return (get_proc s c)))).
+    assert (Hret : inv R0 (set_proc s c (early_return (get_proc s c) l))).
     { apply inv_forget; simpl; auto using incl_refl, incl_appr_snap. }
     assert (Hswap : forall c' p', cat_complete (s_cat s) g t = Some c' ->
               (p' = with_pc (see_catalog (get_proc s c) c') (PJobDone l g) \/
-               p' = early_return (see_catalog (get_proc s c) c')) ->
+               p' = early_return (see_catalog (get_proc s c) c') l) ->
               inv R0 (set_proc (set_cat s c') c p')).
     { intros c' p' Hcc Hp'.
-      set (sa := set_proc s c (early_return (get_proc s c))).
+      set (sa := set_proc s c (early_return (get_proc s c) l)).
       pose proof (inv_cat_swap R0 sa g t c' rowsT Hret Hcc Hct Hcov) as Ib.
       set (sb := set_cat sa c') in Ib.
       replace (set_proc (set_cat s c') c p') with (set_proc sb c p').
       2:{ unfold sb, sa, set_cat, set_proc; simpl. rewrite aset_twice. reflexivity. }
-      assert (Hgp : get_proc sb c = early_return (get_proc s c)).
+      assert (Hgp : get_proc sb c = early_return (get_proc s c) l).
       { unfold sb. change (get_proc (set_cat sa c') c) with (get_proc sa c).
         unfold sa. rewrite get_set_proc_same. reflexivity. }
       destruct (cat_complete_some _ _ _ _ Hcc) as [_ [_ [Hkeys _]]].
@@ -1748,14 +1748,51 @@ Proof.
 Qed.
 
 (* ------------------------------------------------------------------ *)
-(* K4 (liveness): a `?` after acquire_lease leaks the renewal task; the  *)
-(* lease stays live for any number of renewal periods, so the chunks    *)
-(* are never compacted again while that process runs                    *)
+(* K4 (liveness; repaired by fix 00081bd): before the repair a `?` after  *)
+(* acquire_lease left the renewal task running, so the abandoned lease    *)
+(* was renewed for ever.  Now every request whose error leaves the cycle  *)
+(* stops the renewal task and releases the concurrency slot; the lease    *)
+(* expires after its TTL and the chunks can be compacted again.           *)
 (* ------------------------------------------------------------------ *)
+Definition lease_of_pc (k : pc) : option lid :=
+  match k with
+  | Idle => None
+  | PJob l _ | PRead l _ _ _ | PPut l _ _ | PReg l _ _ _ | PSwap l _ _
+  | PJobDone l _ | PLeaseDone l _ | PJobFail l | PLeaseFail l => Some l
+  end.
+
+Theorem error_path_stops_renewal :
+  forall (s : state) (c : cid) (f : fault) (k a : N),
+  snd (step s (LStep c f)) = (k, a, 1) ->
+  let s' := fst (step s (LStep c f)) in
+  p_pc (get_proc s' c) = Idle /\
+  (forall l, lease_of_pc (p_pc (get_proc s c)) = Some l -> ~ In l (p_renew (get_proc s' c))) /\
+  p_active (get_proc s' c) = p_active (get_proc s c) - 1.
+Proof.
+  intros s c f k a. simpl. unfold step_proc.
+  assert (Hrm : forall l x, Some l = Some x -> ~ In x (removeN l (p_renew (get_proc s c)))).
+  { intros l x Hx. inversion Hx; subst. rewrite In_removeN. tauto. }
+  destruct (p_pc (get_proc s c)) eqn:E;
+    repeat (match goal with
+            | |- context [match ?x with _ => _ end] => destruct x eqn:?
+            end; simpl);
+    intros H; try discriminate H;
+    rewrite get_set_proc_same; simpl; repeat split; auto.
+Qed.
+
+(* the abandoned lease of the witness is no longer renewed and, once its TTL
+   has elapsed, another node acquires the chunks *)
+Definition k4_job_error : list label := [LList 0; LStart 0 [1; 2] FOk; LStep 0 FBefore].
+
+Example k4_lease_expires_after_error : forall local : bool,
+  snd (step (run k4_job_error (two_l0 local)) (LRenew 0 1)) = no_out /\
+  snd (step (run (k4_job_error ++ [LRenew 0 1; LTick 299; LList 1]) (two_l0 local)) (LStart 1 [1; 2] FOk)) = (2, 0, 2) /\
+  snd (step (run (k4_job_error ++ [LRenew 0 1; LTick 300; LList 1]) (two_l0 local)) (LStart 1 [1; 2] FOk)) = (2, 2, 0).
+Proof. intros local. destruct local; vm_compute; repeat split; reflexivity. Qed.
+
+(* a lease whose renewal task keeps firing stays live (what the renewal is for) *)
 Definition renew_round (c : cid) (l : lid) : list label :=
   [LTick Consts.C03_RENEWAL_PERIOD_SECS; LRenew c l].
-Fixpoint rounds (n : nat) (c : cid) (l : lid) : list label :=
-  match n with O => [] | S k => renew_round c l ++ rounds k c l end.
 
 Definition holds_lease (s : state) (c : cid) (l : lid) (chunks : list path) : Prop :=
   In l (p_renew (get_proc s c)) /\
@@ -1767,7 +1804,7 @@ Definition lease_is_live (s : state) (l : lid) (chunks : list path) : Prop :=
 Lemma renew_ttl_pos s : (0 < renew_ttl s)%Z.
 Proof. unfold renew_ttl. destruct (s_local s); vm_compute; reflexivity. Qed.
 
-Lemma round_keeps s c l ch :
+Lemma renewal_keeps_lease_live s c l ch :
   holds_lease s c l ch ->
   holds_lease (run (renew_round c l) s) c l ch /\ lease_is_live (run (renew_round c l) s) l ch.
 Proof.
@@ -1783,23 +1820,6 @@ Proof.
     unfold lease_live; simpl. apply Z.ltb_lt. pose proof (renew_ttl_pos s). lia.
 Qed.
 
-Lemma run_app a b s : run (a ++ b) s = run b (run a s).
-Proof. unfold run. apply fold_left_app. Qed.
-
-Theorem lease_leak_forever :
-  forall (n : nat) (s : state) (c : cid) (l : lid) (ch : list path),
-  holds_lease s c l ch ->
-  holds_lease (run (rounds n c l) s) c l ch /\
-  (n <> O -> lease_is_live (run (rounds n c l) s) l ch).
-Proof.
-  induction n as [|k IH]; intros s c l ch H.
-  - split; [exact H|congruence].
-  - change (rounds (S k) c l) with (renew_round c l ++ rounds k c l).
-    rewrite run_app. destruct (round_keeps s c l ch H) as [H1 L1].
-    destruct (IH _ c l ch H1) as [H2 L2]. split; [exact H2|]. intros _.
-    destruct k; [exact L1|apply L2; discriminate].
-Qed.
-
 (* a live lease refuses every group that mentions one of its chunks *)
 Lemma live_lease_conflict s l ch p g :
   lease_is_live s l ch -> In p ch -> In p g ->
@@ -1811,64 +1831,6 @@ Proof.
     simpl. unfold lease_live in Hlive. apply andb_true_iff in Hlive. destruct Hlive as [_ H2].
     apply Z.ltb_lt in H2. rewrite negb_true_iff, andb_false_iff. right. apply Z.leb_gt. exact H2.
   - simpl. rewrite Hlive, Hc. exact Hp.
-Qed.
-
-Lemma in_aset {V} k (v : V) l e : In e (aset N.eqb k v l) -> In e l \/ e = (k, v).
-Proof.
-  induction l as [|[k' v'] r IH]; simpl.
-  - intros [H|[]]. right. symmetry. exact H.
-  - destruct (N.eqb k k') eqn:E; simpl.
-    + apply N.eqb_eq in E. subst k'. intros [H|H]; [right; symmetry; exact H|left; right; exact H].
-    + intros [H|H]; [left; left; exact H|]. destruct (IH H) as [H'|H']; [left; right; exact H'|right; exact H'].
-Qed.
-
-Lemma quiescent_set_proc s c p : quiescent s = true -> p_pc p = Idle -> quiescent (set_proc s c p) = true.
-Proof.
-  unfold quiescent. rewrite !forallb_forall. intros H Hp e He. simpl in He.
-  destruct (in_aset _ _ _ _ He) as [H1| ->]; [apply H; exact H1|]. simpl. rewrite Hp. reflexivity.
-Qed.
-
-Lemma renew_step_quiescent s c l : quiescent s = true -> quiescent (fst (step s (LRenew c l))) = true.
-Proof.
-  intros Hq. simpl.
-  destruct (memN l (p_renew (get_proc s c))); simpl; [|exact Hq].
-  destruct (lease_renew (s_clock s) (renew_ttl s) l (s_leases s)); simpl; [exact Hq|].
-  apply quiescent_set_proc; [exact Hq|]. simpl. apply (quiescent_idle _ Hq c).
-Qed.
-
-Lemma round_quiescent s c l : quiescent s = true -> quiescent (run (renew_round c l) s) = true.
-Proof.
-  intros Hq. unfold run, renew_round.
-  change (fold_left (fun s0 lb => fst (step s0 lb)) [LTick C03_RENEWAL_PERIOD_SECS; LRenew c l] s)
-    with (fst (step (fst (step s (LTick C03_RENEWAL_PERIOD_SECS))) (LRenew c l))).
-  apply renew_step_quiescent. exact Hq.
-Qed.
-
-Lemma rounds_quiescent n c l : forall s, quiescent s = true -> quiescent (run (rounds n c l) s) = true.
-Proof.
-  induction n as [|k IH]; intros s Hq; [exact Hq|].
-  change (rounds (S k) c l) with (renew_round c l ++ rounds k c l).
-  rewrite run_app. apply IH. apply round_quiescent. exact Hq.
-Qed.
-
-(* the witness: create_compaction_job fails -> cycle left with `?` *)
-Definition k4_job_error : list label := [LList 0; LStart 0 [1; 2] FOk; LStep 0 FBefore].
-
-Theorem C03_K4_lease_leaked_and_renewed_forever :
-  forall (local : bool) (n : nat) (g : list path),
-  let s := run (rounds (S n) 0 1) (run k4_job_error (two_l0 local)) in
-  quiescent s = true /\
-  ((In 1 g \/ In 2 g) -> lease_conflict (s_clock s) (drop_expired (s_clock s) (s_leases s)) g = true).
-Proof.
-  intros local n g s.
-  assert (H0 : holds_lease (run k4_job_error (two_l0 local)) 0 1 [1; 2]).
-  { destruct local; (split; [vm_compute; auto|eexists; split; [vm_compute; reflexivity|split; reflexivity]]). }
-  destruct (lease_leak_forever (S n) _ 0 1 [1; 2] H0) as [[_ _] L].
-  split.
-  - unfold s. apply rounds_quiescent. destruct local; vm_compute; reflexivity.
-  - intros Hg. destruct Hg as [Hg|Hg].
-    + eapply (live_lease_conflict s 1 [1; 2] 1); [apply L; discriminate|left; reflexivity|exact Hg].
-    + eapply (live_lease_conflict s 1 [1; 2] 2); [apply L; discriminate|right; left; reflexivity|exact Hg].
 Qed.
 
 (* ------------------------------------------------------------------ *)
